@@ -285,6 +285,16 @@ def hand_corpus():
     S("HArrCPair", field("n", "char"), array("ps", "CPair"))
     S("HOptBreakOpt", chunked(field("a", "char"), field("b", "short", optional=True), brk(), field("c", "string", optional=True), brk(), field("d", "char", optional=True)), rt=False)
     S("HByteArr", array("raw", "byte", length=3), array("cs", "char"))
+    # round 4: a switch inside a case of another switch (case-data classes nested two deep), a blob where chunked reading is on
+    # (directly and through a plain nested struct), required fields after a <break/> that follows an optional array / string
+    S("HSwitchInCase", field("kind", "char"),
+      switch("kind", "char", case(1, field("sub", "char"), switch("sub", "char", case(1, field("x", "short")), case(2, field("s", "string", length=2)))),
+             case(2, field("y", "char"))), field("z", "char"))
+    S("HBlobInChunk", chunked(field("n", "char"), field("data", "blob"), brk(), field("s", "string")))
+    S("HBlobStructInChunk", chunked(field("bb", "HBlob"), brk(), field("s", "string"), brk(), field("m", "char")))
+    S("HOptArrBreakReq", chunked(field("a", "char"), brk(), array("xs", "char", optional=True), brk(), field("z", "char"), field("s", "string", length=2)), rt=False)
+    S("HOnlyOptLen", field("s", "string", length=3, optional=True), array("xs", "char", length=2, optional=True), rt=False)      # every guard of the class is a length check
+    S("HOptStrBreakReq", chunked(field("a", "char"), brk(), field("note", "string", optional=True), brk(), field("z", "char")), rt=False)
     K("Talk", "Request", "net/client", field("msg", "string"))
     K("Talk", "Request", "net/server", field("code", "char"), field("msg", "string"))
     K("Account", "Reply", "net/server", field("code", "short"),
